@@ -480,7 +480,7 @@ fn history_ownable(cfg: &Cfg, rep: &mut Report, h: u64) {
 
 pub fn run(cfg: &Cfg, rep: &mut Report) {
     rep.rule = "Seeded histories on (a) an AccessControl wrapper exposing the whole trait and one entry point per guard macro, 5 accounts x 4 roles with role-admin chains and cycles, (b) the nft-access-control example, (c) the ownable example; every call signed by the necessary principal alone (1/2) or a uniformly random subset of all accounts. Distinct case = (contract, entry point, caller kind {admin, role-admin by chain depth, member, stranger}, principal signed?, outcome).".into();
-    let nh = cfg.pick(40u64, 300);
+    let nh = cfg.pick(40u64, 900);
     let steps = cfg.pick(150usize, 300);
     for k in 0..nh {
         if cfg.runs(k) {
